@@ -137,9 +137,33 @@ impl<R: Read> PgnRawParser<R> {
     }
 
     fn skip_to_next_line(&mut self) -> Result<(), PgnRawParserError> {
-        while self.pop_byte()? != b'\n' {};
+        loop {
+            match self.pop_byte() {
+                // The last line of the input may end without a newline
+                Ok(b'\n') | Err(ReadingFromClosedRead) => return Ok(()),
+                Ok(_) => {}
+                Err(error) => return Err(error),
+            }
+        }
+    }
 
-        Ok(())
+    /// Read up to (not including) the next space or newline; the end of the input also ends a token
+    fn read_token(&mut self) -> Result<String, PgnRawParserError> {
+        let mut result = String::new();
+
+        loop {
+            match self.peek_byte() {
+                Ok(b' ' | b'\n') => break,
+                Ok(byte) => {
+                    result.push(byte as char);
+                    self.skip_byte()?;
+                }
+                Err(ReadingFromClosedRead) if !result.is_empty() => break,
+                Err(error) => return Err(error),
+            }
+        }
+
+        Ok(result)
     }
 
     fn read_until(&mut self, byte: u8) -> Result<String, PgnRawParserError> {
@@ -206,21 +230,15 @@ impl<R: Read> PgnRawParser<R> {
     fn read_move(&mut self) -> Result<Option<PgnRawAnnotatedMove>, PgnRawParserError> {
         self.skip_blank_lines_and_spaces()?;
 
-        let token = self.read_until(b' ')?;
+        let token = self.read_token()?;
 
-        let mut chars = token.chars();
-        if chars.next() == Some('*') {
-            return Ok(None);
-        }
-
-        if let Some('-' | '/') = chars.next() {
-            self.skip_to_next_line()?;
+        if matches!(token.as_str(), "1-0" | "0-1" | "1/2-1/2" | "*") {
             return Ok(None);
         }
 
         let mv = if token.contains('.') {
             self.skip_spaces()?;
-            self.read_until(b' ')?
+            self.read_token()?
         } else {
             token
         };
